@@ -228,8 +228,8 @@ func (af *AdaptationField) stuffingStart() int {
 func (af *AdaptationField) stuffingEnd() int {
 	stuffingEnd := int(af[4]) + 5
 
-	if stuffingEnd >= PacketSize {
-		return PacketSize - 1
+	if stuffingEnd > PacketSize {
+		return PacketSize
 	}
 
 	return stuffingEnd
